@@ -92,6 +92,18 @@ Proof.
   rewrite (assoc_none_notin i n Hnn). rewrite Hr in Hnn. now rewrite (assoc_none_notin j n Hnn).
 Qed.
 
+(* for such classes the fast template refines the specification up to Leibniz equality *)
+Lemma fast_is_spec hs o : to_opt (tpl_fast V K opt ov hs true fs o) = spec_struct V K opt ov hs fs o.
+Proof.
+  pose proof (fast_refines_spec V K opt ov hs fs o W) as R.
+  destruct (tpl_fast V K opt ov hs true fs o) as [j| |] eqn:E; cbn [to_opt] in *;
+    destruct (spec_struct V K opt ov hs fs o) as [i|] eqn:Es; try contradiction; try reflexivity.
+  f_equal. apply assoc_ext_eq.
+  - rewrite (fast_keys _ _ _ E), (spec_keys _ _ _ Es). reflexivity.
+  - rewrite (fast_keys _ _ _ E). exact (wf_name _ _ _ _ W).
+  - exact R.
+Qed.
+
 (* ---- the instance, attribute by attribute ---- *)
 Variable i : inst V.
 Hypothesis I_keys : map fst i = map (@f_name V) fs.
